@@ -296,6 +296,24 @@ var c13Events = []struct {
 		y.model("B", x.now(), nil, nil)
 		return true
 	}},
+	{"post ONE request [A start -30s end +5m, then A start -30s end now]: the later element is the newer submission", func(y *c13Sys) bool {
+		x := y.x
+		now := time.Now()
+		c, body := x.f.postAlerts(
+			fPostAlert{Labels: y.lbl["A"], StartsAt: rfc(now.Add(-30 * time.Second)), EndsAt: rfc(now.Add(5 * time.Minute))},
+			fPostAlert{Labels: y.lbl["A"], StartsAt: rfc(now.Add(-30 * time.Second)), EndsAt: rfc(now)},
+		)
+		if c != 200 {
+			x.err = &violation{"valid-alert-rejected", fmt.Sprintf("POST of two versions of A in one request -> %d %s", c, body)}
+			return true
+		}
+		y.model("A", x.now(), dp(-30*time.Second), dp(5*time.Minute))
+		if r := y.m["A"]; len(r.starts) == 1 && len(r.ends) == 1 {
+			r.known = true // nothing to observe between the two elements; the first one's outcome is determined
+		}
+		y.model("A", x.now(), dp(-30*time.Second), dp(0))
+		return true
+	}},
 	{"silence B", func(y *c13Sys) bool {
 		if y.silID != "" {
 			return false
